@@ -339,8 +339,59 @@ def hanging_poll_leg(c, wd):
         c.violation('shutdown() while the service does not answer a poll: %s' % out['problems'][:3], p_)
 
 
+def interrupted_start_leg(c, wd):
+    """start() fails in its FIRST poll with something that is not an Exception (the service does not answer, the user
+    presses Ctrl-C): nothing of the agent is left behind - no hooks, and above all no poll timer that keeps asking the
+    service for the rest of the process's life; a later start()/shutdown() works and stops everything it started."""
+    import threading
+    out = {}
+
+    def body():
+        sysm = D.LifeSystem(wd, False, 'None', 'None')
+        problems = []
+        try:
+            sysm.poll_interrupt = True
+            try:
+                sysm.deep.start()
+                problems.append('start() returned although its first poll was interrupted')
+            except KeyboardInterrupt:
+                pass
+            except BaseException as ex:
+                problems.append('start() raised %r' % (ex,))
+            if sysm.deep.started:
+                problems.append('the agent counts as started after a failed start')
+            if sysm.hook_name(sys.gettrace()) == 'Agent' or sysm.hook_name(threading.gettrace()) == 'Agent':
+                problems.append('the agent\'s trace hooks are installed after a failed start')
+            n0 = sysm.polls
+            time.sleep(0.4)            # (the poll timer would fire every 20 ms)
+            if sysm.polls != n0:
+                problems.append('%d poll(s) were sent after start() had failed: a poll timer was left running' % (sysm.polls - n0))
+            # a later life works, and its shutdown stops ALL polling
+            sysm.start()
+            sysm.deep.shutdown()
+            n1 = sysm.polls
+            time.sleep(0.4)
+            if sysm.polls != n1:
+                problems.append('%d poll(s) were sent after shutdown() (the timer of the failed start is still running)'
+                                % (sysm.polls - n1))
+        finally:
+            sysm.close()
+        out['problems'] = problems
+    th = threading.Thread(target=body)
+    th.start()
+    th.join(120)
+    if 'problems' not in out:
+        raise tlc.MachineryError('interrupted-start case did not finish')
+    c.traces_validated += 1
+    c.note_case(key=('interrupted-start',), nontrivial=True)
+    if out['problems']:
+        p_ = c.save_replay({'kind': 'interrupted-start', 'problems': out['problems']})
+        c.violation('start() interrupted in its first poll: %s' % out['problems'][:3], p_)
+
+
 def run_with_e2e(c):
     run(c)
+    interrupted_start_leg(c, tlc.scratch('c14i_'))
     hanging_poll_leg(c, tlc.scratch('c14h_'))
     plugin_cleans_up_leg(c, tlc.scratch('c14p_'))
     # end to end: after the real deep.shutdown() over a real gRPC connection nothing reaches the service any more,
